@@ -11,6 +11,7 @@ import (
 	"runtime"
 	"strconv"
 	"sync"
+	"time"
 
 	vy "github.com/thushan/olla/internal/verifyield"
 )
@@ -99,7 +100,13 @@ func (s *Sched) Yield(site string, blocked bool) {
 	t := s.byGoid[goid()]
 	s.mu.Unlock()
 	if t == nil {
-		return // not a task (e.g. a timer callback): runs to its next blocking point
+		// not a task (a timer callback, a component's own background goroutine): it runs to its next
+		// blocking point; if it waits for a lock held by a parked task it must wait durably, or the
+		// bubble's clock could never advance to the moment that task is resumed
+		if blocked {
+			time.Sleep(time.Millisecond)
+		}
+		return
 	}
 	t.blocked = blocked
 	t.site = site
